@@ -7,6 +7,7 @@ import (
 	"go/printer"
 	"go/token"
 	"go/types"
+	"sort"
 	"strings"
 
 	"golang.org/x/tools/go/ssa"
@@ -24,14 +25,58 @@ func (x *Exec) pos(p token.Pos) string {
 	return fmt.Sprintf("%s:%d", strings.TrimPrefix(ps.Filename, repoDir()+"/"), ps.Line)
 }
 
-// rpo returns blocks in reverse post-order ignoring back edges.
+// rpo returns blocks in reverse post-order ignoring back edges. Successors that leave a loop
+// are visited first, so that in the resulting order every block of a loop body precedes the code
+// after the loop: obligations inside a loop then carry no facts about what follows it.
 func rpo(fn *ssa.Function) []*ssa.BasicBlock {
+	// natural loops: header index -> body
+	loops := map[int]map[int]bool{}
+	for _, b := range fn.Blocks {
+		for _, p := range b.Preds {
+			if !isBackEdge(p, b) {
+				continue
+			}
+			body := loops[b.Index]
+			if body == nil {
+				body = map[int]bool{b.Index: true}
+				loops[b.Index] = body
+			}
+			var stack []*ssa.BasicBlock
+			if !body[p.Index] {
+				body[p.Index] = true
+				stack = append(stack, p)
+			}
+			for len(stack) > 0 {
+				n := stack[len(stack)-1]
+				stack = stack[:len(stack)-1]
+				for _, q := range n.Preds {
+					if !body[q.Index] {
+						body[q.Index] = true
+						stack = append(stack, q)
+					}
+				}
+			}
+		}
+	}
+	shared := func(b, s *ssa.BasicBlock) int {
+		n := 0
+		for _, body := range loops {
+			if body[b.Index] && body[s.Index] {
+				n++
+			}
+		}
+		return n
+	}
 	seen := map[int]bool{}
 	var post []*ssa.BasicBlock
 	var dfs func(b *ssa.BasicBlock)
 	dfs = func(b *ssa.BasicBlock) {
 		seen[b.Index] = true
-		for _, s := range b.Succs {
+		succs := append([]*ssa.BasicBlock(nil), b.Succs...)
+		if len(loops) > 0 {
+			sort.SliceStable(succs, func(i, j int) bool { return shared(b, succs[i]) < shared(b, succs[j]) })
+		}
+		for _, s := range succs {
 			if !seen[s.Index] && !isBackEdge(b, s) {
 				dfs(s)
 			}
@@ -216,7 +261,7 @@ func (x *Exec) runBody(fr *Frame, st *State) {
 func (x *Exec) enterLoop(fr *Frame, li *loopInfo, in *State) {
 	invs := x.loopInvariants(fr, li)
 	for _, c := range invs {
-		x.obligeClause(fr, in, c, "inv-init", loopAnchor(li), func(env *Env) { env.loop = li }, li.header.Instrs[0].Pos())
+		x.obligeClause(fr, in, c, "inv-init", loopAnchor(li), func(env *Env) { env.loop = li }, loopPos(li))
 		x.obls[len(x.obls)-1].Watch = x.loopWatches(fr, in, li)
 	}
 	// havoc
@@ -268,7 +313,8 @@ func (x *Exec) enterLoop(fr *Frame, li *loopInfo, in *State) {
 	for _, c := range invs {
 		env := x.newEnv(fr, in)
 		env.loop = li
-		env.pos = li.header.Instrs[0].Pos()
+		env.pos = loopPos(li)
+		env.assumeMode = true
 		t, err := env.evalBool(c.E)
 		if err != nil {
 			continue // reported by inv-init already
@@ -286,7 +332,7 @@ func (x *Exec) loopWatches(fr *Frame, st *State, li *loopInfo) []watch {
 	for _, w := range li.spec.Witness {
 		env := x.newEnv(fr, st)
 		env.loop = li
-		env.pos = li.header.Instrs[0].Pos()
+		env.pos = loopPos(li)
 		n := w.Bound
 		if w.Var == "" {
 			n = 1
@@ -338,7 +384,7 @@ func (x *Exec) edge(fr *Frame, st *State, from, to *ssa.BasicBlock, cond Term, e
 		es.pc = pc
 		x.recordLoopMods(li, es)
 		for _, c := range x.loopInvariants(fr, li) {
-			x.obligeClause(fr, es, c, "inv-step", loopAnchor(li), func(env *Env) { env.loop = li }, to.Instrs[0].Pos())
+			x.obligeClause(fr, es, c, "inv-step", loopAnchor(li), func(env *Env) { env.loop = li }, loopPos(li))
 			x.obls[len(x.obls)-1].Watch = x.loopWatches(fr, es, li)
 		}
 		return
@@ -370,7 +416,12 @@ func (x *Exec) recordLoopMods(li *loopInfo, es *State) {
 		add("low")
 	}
 	for name, t := range es.heap {
-		if ht, ok := li.head.heap[name]; !ok || ht != t {
+		ht, ok := li.head.heap[name]
+		if !ok && t == sym(name+"@0") {
+			// first touched inside the loop and still its initial value: read, not written
+			continue
+		}
+		if !ok || ht != t {
 			add("h:" + name)
 		}
 	}
@@ -1231,4 +1282,21 @@ func (x *Exec) strConcat(a, b Term) Term {
 	t := App(f, a, b)
 	m.assume(And(Eq(App("strlen", t), "(+ "+App("strlen", a)+" "+App("strlen", b)+")"), "(>= "+App("strlen", a)+" 0)", "(>= "+App("strlen", b)+" 0)"))
 	return t
+}
+
+// loopPos is the source position at which a loop's clauses are evaluated: just inside the loop
+// body (so that names resolve to the variables in scope there), or the header's first
+// instruction when the loop has no syntax.
+func loopPos(li *loopInfo) token.Pos {
+	switch l := li.astLoop.(type) {
+	case *ast.ForStmt:
+		if l.Body != nil {
+			return l.Body.Lbrace + 1
+		}
+	case *ast.RangeStmt:
+		if l.Body != nil {
+			return l.Body.Lbrace + 1
+		}
+	}
+	return li.header.Instrs[0].Pos()
 }
